@@ -386,6 +386,8 @@ func orcTrigger(s *orcStep, prop string) string {
 		switch {
 		case to.RefFlatAttr:
 			return "target-has-flat-attribute-keys"
+		case to.RefChainInner:
+			return "target-inner-node-of-chain"
 		case to.RefChain:
 			return "target-in-chain"
 		case to.RefMid:
